@@ -111,6 +111,66 @@ Section RestrictionTie.
   Qed.
 End RestrictionTie.
 
-(* The FMG interpolation macro is regenerated as well (gen_fmg_interpolation, so that a change outside the translator's grammar is
-   noticed), but its equality with InterpDefs.FMG_row is tied by the K-matrix correspondence only: the 16-term tensor identity did not
-   close with ring / field within the time limit of a check. *)
+
+(* ---- the FMG interpolation (macro FINE_NODE_FMG_INTERPOLATION) as T3 regenerates it: one write per fine node,
+   result[(i,j)] := (row (i,j) of the model FMG_row) . x, where the coarse grid's own spacing arrays (hcf, kcf) are the sums of
+   the two fine spacings they span (coarsening keeps every second node, C17) ---- *)
+Section FMGTie.
+  Variable nr nth : Z.
+  Variable h k hcf kcf : Z -> R.
+  Hypothesis Hnth : (4 <= nth)%Z.
+  Hypothesis Heven : Z.even nth = true.
+  Hypothesis Hnr : (5 <= nr)%Z.
+  Hypothesis Hodd : Z.odd nr = true.
+  Hypothesis Hh : forall x, (0 < h x)%R.
+  Hypothesis Hk : forall x, (0 < k x)%R.
+  Let nthc := Z.quot nth 2.
+  Hypothesis Hhc : forall c, hcf c = (h (2 * c) + h (2 * c + 1))%R.
+  Hypothesis Hkc : forall c, (0 <= c < nthc)%Z -> kcf c = (k (2 * c) + k (2 * c + 1))%R.
+
+  Lemma nthc_facts'' : (nth = 2 * nthc)%Z /\ (2 <= nthc)%Z.
+  Proof.
+    unfold nthc. pose proof Heven as He. apply Z.even_spec in He. destruct He as [m Hm].
+    assert (Z.quot nth 2 = m) by (rewrite Hm, Z.mul_comm; apply Z.quot_mul; lia). lia.
+  Qed.
+
+  Lemma wrap1_range n x : (0 < n)%Z -> (- n <= x < 2 * n)%Z -> (0 <= wrap1 n x < n)%Z.
+  Proof. intros Hn Hx. unfold wrap1. destruct (Z.ltb_spec x 0); [lia|]. destruct (Z.geb_spec x n); lia. Qed.
+
+  Lemma kc_model c : (- nthc <= c < 2 * nthc)%Z -> @kc Rsc nth k c = kcf (wrap1 nthc c).
+  Proof.
+    intros Hc. destruct nthc_facts'' as [E H2]. unfold kc, kw, InterpDefs.nthc. fold nthc. cbv zeta.
+    pose proof (wrap1_range nthc c ltac:(lia) Hc) as Hr.
+    rewrite (Hkc _ Hr). rewrite (wrap1_small nth (2 * wrap1 nthc c)) by lia. rewrite (wrap1_small nth (2 * wrap1 nthc c + 1)) by lia. reflexivity.
+  Qed.
+
+  Theorem gen_fmg_interpolation_is_model : forall (x : Z -> Z -> R) (i j : Z), (0 <= i < nr)%Z -> (0 <= j < nth)%Z ->
+    @gen_fmg_interpolation Rsc nr nth nthc h k hcf kcf x i j =
+    [ (((i, j), W_result_WAssign), @apply_row2 Rsc (@FMG_row Rsc nr nth h k i j) x) ].
+  Proof.
+    intros x i j Hi Hj. destruct nthc_facts'' as [E H2].
+    assert (Hq : (0 <= Z.quot j 2 < nthc)%Z).
+    { rewrite Z.quot_div_nonneg by lia. split; [apply Z.div_pos; lia|apply Z.div_lt_upper_bound; lia]. }
+    unfold gen_fmg_interpolation, FMG_row, Fr_row, Ft_row, tensor, odd, lag4, hc. cbv zeta.
+    rewrite !(kc_model (Z.quot j 2 - 1)) by lia. rewrite !(kc_model (Z.quot j 2 + 1)) by lia.
+    unfold kw, InterpDefs.nthc. fold nthc.
+    rewrite ?wrapT_idem. rewrite ?(wrapT_small nth j Hj). rewrite ?(wrapT_small nthc (Z.quot j 2) Hq).
+    rewrite ?(wrapT_wrap1 nth (j - 1)) by lia. rewrite ?(wrap1_small nth j Hj).
+    rewrite ?(wrapT_wrap1 nthc (Z.quot j 2 + 1)) by lia. rewrite ?(wrapT_wrap1 nthc (Z.quot j 2 - 1)) by lia.
+    rewrite ?(wrapT_wrap1 nthc (Z.quot j 2 + 2)) by lia.
+    rewrite !Hhc.
+    pose proof (Hh (i - 1)%Z). pose proof (Hh i). pose proof (Hk (wrap1 nth (j - 1))). pose proof (Hk j).
+    pose proof (Hh (2 * (Z.quot i 2 - 1))%Z). pose proof (Hh (2 * (Z.quot i 2 - 1) + 1)%Z).
+    pose proof (Hh (2 * (Z.quot i 2 + 1))%Z). pose proof (Hh (2 * (Z.quot i 2 + 1) + 1)%Z).
+    pose proof (wrap1_range nthc (Z.quot j 2 - 1) ltac:(lia) ltac:(lia)) as R1.
+    pose proof (wrap1_range nthc (Z.quot j 2 + 1) ltac:(lia) ltac:(lia)) as R2.
+    rewrite !(Hkc _ R1), !(Hkc _ R2).
+    pose proof (Hk (2 * wrap1 nthc (Z.quot j 2 - 1))%Z). pose proof (Hk (2 * wrap1 nthc (Z.quot j 2 - 1) + 1)%Z).
+    pose proof (Hk (2 * wrap1 nthc (Z.quot j 2 + 1))%Z). pose proof (Hk (2 * wrap1 nthc (Z.quot j 2 + 1) + 1)%Z).
+    destruct (Z.eqb_spec i 0); destruct (Z.eqb_spec i (nr - 1)); destruct (Z.eqb_spec i 1); destruct (Z.eqb_spec i (nr - 2));
+      try lia; cbn [orb]; destruct (Z.odd i); destruct (Z.odd j);
+      cbn [app flat_map map fst snd apply_row2 fold_right]; rewrite ?app_nil_r; f_equal; f_equal; rsc; try ring;
+      (* every weight is a product of quotients with the same denominators on both sides: abstract the inverses, then a polynomial identity *)
+      unfold Rdiv; repeat match goal with |- context [(/ ?t)%R] => let v := fresh "v" in generalize (/ t)%R; intro v end; ring.
+  Qed.
+End FMGTie.
